@@ -180,14 +180,20 @@ def run_parity(ctx: Ctx) -> RuleResult:
         tsparam = glc.positional_names()[1] if len(glc.positional_names()) > 1 else 'terminals'
         ok = not conts and len(ifs) == 1 and (has_pat([ifs[0].test], '$cb is not None') or isinstance(ifs[0].test, ast.Name)) \
             and norm(lp.iter) == tsparam
+    if not lps:
+        # the comprehension form: one generator over the terminals parameter, the walrus test its only filter
+        tsparam = glc.positional_names()[1] if len(glc.positional_names()) > 1 else 'terminals'
+        dc_ = find_pat(glc.body_nodes(), '{$term.name: $cb for $term in $terms if ($cb := getattr($tr, $term.name, None)) is not None}',
+                       {'tr': tparam, 'terms': tsparam})
+        ok = len(dc_) == 1
     res.ob('%s %s' % (glc.loc(), glc.qual), 'a token callback is installed for every terminal that has a method of its name (no other filter)', ok)
     if not ok:
         res.finding(glc, glc.node, 'the embedded path filters which terminals get their callback (a post-hoc transform calls the method for '
                                    'every token of that type that is in the tree, e.g. _TERMINALS kept by !rules)', construct='embedded:terminal-filter')
     ft = repo.func('lark.parsers.lalr_parser_state:ParserState.feed_token')
     body = ' '.join(norm(s) for s in ft.body_nodes() if isinstance(s, ast.Expr))
-    ok = has_pat(ft.body_nodes(), '$t if $t.type not in $cb else $cb[$t.type]($t)') or \
-        has_pat(ft.body_nodes(), '$cb[$t.type]($t) if $t.type in $cb else $t')
+    from ..exprs import match_cond
+    ok = bool(match_cond(ft.body_nodes(), '$t.type in $cb', '$cb[$t.type]($t)', '$t'))
     res.ob('%s %s' % (ft.loc(), ft.qual), 'on shift, a terminal callback replaces the token iff one is registered for its type', ok)
     if not ok:
         res.finding(ft, ft.node, 'the LALR driver does not apply the terminal callback exactly for registered token types', construct='embedded:shift')
@@ -236,6 +242,9 @@ def run_parity(ctx: Ctx) -> RuleResult:
     # token callbacks travel from _get_lexer_callbacks to the parser's callback table unadapted
     cbs = find_pat(glc.body_nodes(), '$cb = getattr($tr, $term.name, None)', {'tr': tparam})
     ok = bool(cbs) and has_pat(glc.body_nodes(), '$r[$term.name] = $cb', {'cb': cbs[0][1]['cb'], 'term': cbs[0][1]['term']})
+    # (the same as one dict comprehension)
+    dcomp = find_pat(glc.body_nodes(), '{$term.name: $cb for $term in $terms if ($cb := getattr($tr, $term.name, None)) is not None}', {'tr': tparam})
+    ok = ok or bool(dcomp)
     res.ob('%s %s' % (glc.loc(), glc.qual), 'the registered token callback is the transformer\'s method itself', ok)
     if not ok:
         res.finding(glc, glc.node, 'the token callback registered for a terminal is not the bound method found under its name',
